@@ -1,0 +1,83 @@
+// Verification hook (cargo feature `verif-hooks`, off by default; never enabled in shipped builds).
+//
+// A drop-in stand-in for `std::sync::Arc` that calls an external scheduling hook before every
+// operation on the reference count, so that a controlled scheduler can interleave threads at those
+// points. The hook symbol is provided by the verification harness; nothing here changes what the
+// operations do.
+
+use std::fmt;
+use std::ops::Deref;
+use std::sync::Arc as StdArc;
+
+extern "C" {
+    fn ipcsim_sched_point(kind: u32);
+}
+
+#[inline]
+fn sched_point(kind: u32) {
+    unsafe { ipcsim_sched_point(kind) }
+}
+
+pub struct Arc<T>(Option<StdArc<T>>);
+
+#[allow(dead_code)]
+impl<T> Arc<T> {
+    pub fn new(value: T) -> Arc<T> {
+        Arc(Some(StdArc::new(value)))
+    }
+
+    pub fn strong_count(this: &Arc<T>) -> usize {
+        sched_point(3);
+        StdArc::strong_count(this.0.as_ref().unwrap())
+    }
+
+    pub fn ptr_eq(this: &Arc<T>, other: &Arc<T>) -> bool {
+        StdArc::ptr_eq(this.0.as_ref().unwrap(), other.0.as_ref().unwrap())
+    }
+
+    pub fn get_mut(this: &mut Arc<T>) -> Option<&mut T> {
+        sched_point(3);
+        StdArc::get_mut(this.0.as_mut().unwrap())
+    }
+
+    pub fn try_unwrap(mut this: Arc<T>) -> Result<T, Arc<T>> {
+        sched_point(2);
+        StdArc::try_unwrap(this.0.take().unwrap()).map_err(|a| Arc(Some(a)))
+    }
+}
+
+impl<T> Clone for Arc<T> {
+    fn clone(&self) -> Arc<T> {
+        sched_point(1);
+        Arc(self.0.clone())
+    }
+}
+
+impl<T> Drop for Arc<T> {
+    fn drop(&mut self) {
+        if let Some(inner) = self.0.take() {
+            sched_point(2);
+            drop(inner);
+        }
+    }
+}
+
+impl<T> Deref for Arc<T> {
+    type Target = T;
+
+    fn deref(&self) -> &T {
+        self.0.as_ref().unwrap()
+    }
+}
+
+impl<T: PartialEq> PartialEq for Arc<T> {
+    fn eq(&self, other: &Arc<T>) -> bool {
+        **self == **other
+    }
+}
+
+impl<T: fmt::Debug> fmt::Debug for Arc<T> {
+    fn fmt(&self, f: &mut fmt::Formatter) -> fmt::Result {
+        (**self).fmt(f)
+    }
+}
